@@ -31,7 +31,7 @@ RULE_OWNER = {
     'step_ts': ['C05'], 'step_view': ['C05'], 'step_missing': ['C05'],
     'step_apply_order': ['C05'],
     'row_time': ['C12'], 'row_content': ['C12'], 'row_unexpected': ['C12'],
-    'row_missing': ['C12'],
+    'row_missing': ['C12'], 'config_record': ['C12'],
     'poll_dead': ['C10'], 'step_dead': ['C10'],
     'struct': [], 'unknown_record': [],
 }
